@@ -51,8 +51,10 @@ def main():
     meta = dict(seed_id=sid, property=prop, patch='patch.diff', demonstration='demo.py')
     try:
         b = sh([sys.executable, os.path.join(HERE, 'baseline.py'), scratch])
-        if b.returncode != 0:      # (a timing-sensitive test can fail on a loaded machine: decide on a second run)
-            meta['baseline_first_run'] = b.stdout.strip()[:400]
+        for _ in range(2):         # (a timing-sensitive test can fail on a loaded machine: up to two more runs decide)
+            if b.returncode == 0:
+                break
+            meta.setdefault('baseline_failed_runs', []).append(b.stdout.strip()[:300])
             b = sh([sys.executable, os.path.join(HERE, 'baseline.py'), scratch])
         meta['baseline_with_change'] = (b.stdout.strip().splitlines() or ['?'])[0]
         env = dict(os.environ)
